@@ -241,13 +241,26 @@ mod private {
                         lens.push(cx.rng.below(30));
                     }
                     cx.count("direct call sequences with words of 76-420 letters");
-                } else {
+                } else if cx.rng.chance(1, 2) {
                     for _ in 0..6 {
                         let a = cx.rng.range(15, 80);
                         lens.push(a);
                         lens.push(a + cx.rng.below(3));
                         lens.push(a.saturating_sub(cx.rng.below(3)));
                     }
+                } else {
+                    // arithmetic relations between the two lengths: (a, 2a+1), (a, 2a), products around powers of two
+                    for _ in 0..6 {
+                        let a = cx.rng.range(1, 64);
+                        lens.push(a);
+                        lens.push(match cx.rng.below(4) {
+                            0 => 2 * a + 1,
+                            1 => 2 * a,
+                            2 => (1usize << cx.rng.range(6, 12)) / a.max(1),
+                            _ => cx.rng.below(130),
+                        });
+                    }
+                    cx.count("direct call sequences with arithmetic length relations");
                 }
             }
             0 => {
@@ -269,6 +282,21 @@ mod private {
                 for _ in 0..12 {
                     lens.push(*cx.rng.pick(&[0, 1, 2, 19, 20, 21, 22, 30, 31, 32, 33, 46, 47, 48, 49, 50, 70]));
                 }
+            }
+        }
+        if cx.tier != Tier::Miri && cx.rng.chance(1, 300) {
+            // Jaccard over sets with more than 255 / 65 535 distinct elements
+            let n1 = *cx.rng.pick(&[256usize, 300, 1000, 65_536, 70_000]);
+            let n2 = *cx.rng.pick(&[3usize, 255, 257, 66_000]);
+            let s1: Vec<char> = (0..n1 as u32).filter_map(|k| std::char::from_u32(0x4E00 + (k * 7) % 80_000)).collect();
+            let s2: Vec<char> = (0..n2 as u32).filter_map(|k| std::char::from_u32(0x4E00 + (k * 11) % 80_000)).collect();
+            cx.ctx(format!("C19 jaccard on {} and {} elements", s1.len(), s2.len()));
+            let j = JC.with(|j| j.similarity(&s1, &s2));
+            let small = JC.with(|j| j.similarity(&s2[..3.min(s2.len())], &s1[..2]));
+            cx.eval();
+            cx.count("jaccard calls on sets of 256-70000 distinct elements");
+            if !(j >= 0.0 && j <= 1.0 && small >= 0.0 && small <= 1.0) {
+                cx.fail("nonsense-value-from-unchecked-path", json!({"set_sizes": [s1.len(), s2.len()], "similarity": j}));
             }
         }
         let fresh_dl = cx.rng.chance(1, 4);
@@ -482,7 +510,11 @@ impl Prims {
             let nq = if cx.tier == Tier::Miri { 3 } else { 8 };
             for k in 0..nq {
                 let t = cx.rng.pick(&recs).1.clone();
-                let q = if k % 2 == 0 {
+                let q = if k == 5 && cx.rng.chance(1, 3) {
+                    // a query of 65-200 words
+                    cx.count("store-level queries of 65-200 words");
+                    (0..cx.rng.range(65, 200)).map(|_| gen::any_word(&mut cx.rng, lang)).collect::<Vec<_>>().join(" ")
+                } else if k % 2 == 0 {
                     let q = gen::related_query(&mut cx.rng, lang, &st.store.lang, &t);
                     if cx.rng.chance(1, 3) { q.chars().filter(|c| c.is_alphanumeric()).collect() } else { q }
                 } else {
@@ -533,7 +565,7 @@ impl Prop for Prims {
             Which::Distance => vec![("exhaustive pairs", 100000, 2000000), ("prefix cells compared", 1000000, 20000000), ("pairs where a discount lowered the distance", 10000, 100000), ("random pairs beyond capacity 20", 500, 5000), ("long pairs with sampled prefix cells", 200, 2000), ("hook matrix growths", 3, 3), ("hook matrix max size", 50, 50)],
             Which::Jaccard => vec![("exhaustive pairs", 100000, 1500000), ("pairs with partial overlap", 20000, 200000), ("pairs beyond the initial capacity of 20", 500, 5000), ("random cases over a wide alphabet", 1000, 10000), ("hook jaccard accesses", 100000, 1000000)],
             Which::Index => vec![("prepare calls", 5000, 50000), ("capped calls", 500, 5000), ("calls with ties at the cut", 100, 1000), ("size 0", 300, 3000), ("corpus prepare calls", 200, 2000), ("stores of 1023-5000 records", 50, 500), ("queries with more than 255 distinct grams", 300, 15000)],
-            Which::Unchecked => vec![("direct distance/similarity calls", 20000, 200000), ("direct calls beyond capacity 20", 5000, 50000), ("store-level searches", 5000, 50000), ("store-level rounds with 127-1500 records", 200, 2000), ("store-level rounds with clear and re-add", 500, 5000), ("direct call sequences with words of 76-420 letters", 200, 2000), ("hook matrix accesses", 1000000, 10000000), ("hook matrix growths", 3, 3), ("hook matrix max size", 50, 50), ("hook counter accesses", 10000, 100000), ("hook cost accesses", 100000, 1000000), ("hook jaccard accesses", 10000, 100000)],
+            Which::Unchecked => vec![("direct distance/similarity calls", 20000, 200000), ("direct calls beyond capacity 20", 5000, 50000), ("store-level searches", 5000, 50000), ("store-level rounds with 127-1500 records", 200, 2000), ("store-level rounds with clear and re-add", 500, 5000), ("direct call sequences with words of 76-420 letters", 200, 2000), ("direct call sequences with arithmetic length relations", 300, 3000), ("store-level queries of 65-200 words", 300, 3000), ("jaccard calls on sets of 256-70000 distinct elements", 20, 200), ("hook matrix accesses", 1000000, 10000000), ("hook matrix growths", 3, 3), ("hook matrix max size", 50, 50), ("hook counter accesses", 10000, 100000), ("hook cost accesses", 100000, 1000000), ("hook jaccard accesses", 10000, 100000)],
         }
     }
     #[allow(unused_variables)]
